@@ -48,12 +48,14 @@ type ForceSlot struct {
 	Dir    string // root | same | sub | parent | cousin | http
 }
 
+// the same two base names are used in every directory, so that the same relative text ("x.json#/...") designates
+// different documents depending on the document that contains it
 var docPool = map[string][]string{
 	"same":   {"file:///w/a/x.json", "file:///w/a/other.json"},
-	"sub":    {"file:///w/a/s/y.json", "file:///w/a/s/t/deep.json"},
-	"parent": {"file:///w/z.json", "file:///top.json"},
-	"cousin": {"file:///w/b/q.json", "file:///w/b/c/r.json"},
-	"http":   {"http://h.example/d/e.json", "http://h.example/f/g.json"},
+	"sub":    {"file:///w/a/s/x.json", "file:///w/a/s/t/other.json"},
+	"parent": {"file:///w/x.json", "file:///other.json"},
+	"cousin": {"file:///w/b/x.json", "file:///w/b/c/other.json"},
+	"http":   {"http://h.example/d/x.json", "http://h.example/f/other.json"},
 }
 
 const RootURL = "file:///w/a/root.json"
